@@ -1645,6 +1645,25 @@ func (e *Engine) trackConservation(tx *Tx, rep *Report) {
 			if d, err := ref.DecodeMessage(raw); err == nil && bytes.Equal(d.Sender, modulePadded) {
 				if b, err := ref.DecodeBurn(d.Body); err == nil {
 					e.SumDeposits.Add(e.SumDeposits, b.Amount)
+					// model-independent: however the request spelled the burn token, the burn message names keccak256 of the
+					// lower-cased minting denom
+					e.Rc.Cov.Assert("C06.deposit-burn-token-is-hash-of-lower-cased-denom")
+					if i < len(rep.SentIdx) && rep.SentIdx[i] >= 0 && rep.SentIdx[i] < len(tx.Msgs) {
+						spelled := ""
+						switch x := tx.Msgs[rep.SentIdx[i]].(type) {
+						case *ct.MsgDepositForBurn:
+							spelled = x.BurnToken
+						case *ct.MsgDepositForBurnWithCaller:
+							spelled = x.BurnToken
+						}
+						if spelled != "" && spelled != e.MintDenom() {
+							e.Rc.Cov.Cell("C06_case_variant_deposits", "accepted")
+						}
+					}
+					if want := ref.Keccak256([]byte(strings.ToLower(e.MintDenom()))); !bytes.Equal(b.BurnToken, want) {
+						e.viol([]string{"C06"}, "message-sent", "C06:deposit-burn-token-not-hash-of-lower-cased-denom",
+							fmt.Sprintf("a deposit's burn message names burn token %x; keccak256(lower-cased minting denom %q) is %x", b.BurnToken, e.MintDenom(), want), e.caseOf(tx, hex.EncodeToString(raw)))
+					}
 				}
 				// model-independent: every deposit announces its burn under an outbound nonce of its own
 				if e.DepositNonces == nil {
